@@ -62,22 +62,24 @@ fn raw_enc_ld<T: Message + Glue>(m: &DynMsg) -> Vec<u8> { build::<T>(m).expect("
 type Outcome = Result<(DynMsg, usize), DecodeError>;
 fn show(r: &Outcome) -> String { match r { Ok((m, rem)) => format!("ok {} rem={}", m_sexp(m), rem), Err(e) => format!("{} ({})", class(e), e) } }
 
-/// cross-check the emitted decode against the dynamic message's decode of the same bytes, run the
-/// UTF-8 oracle, print the answer
+/// run the UTF-8 oracle, cross-check the emitted decode against the dynamic message's decode of the
+/// same bytes, print the answer
 fn finish(with_rem: bool, s: &Arc<Schema>, emitted: Outcome, dynamic: Outcome, o: &mut Oracle) -> String {
+    let mut badstr = vec![];
+    if let Ok((m, _)) = &emitted { check_utf8(s, m, &mut badstr); }
+    if !badstr.is_empty() { o.fail("C10", format!("decoded message holds a string that is not UTF-8: {}", badstr[0])); }
     let same = match (&emitted, &dynamic) {
         (Ok((a, ra)), Ok((b, rb))) => ra == rb && m_same(a, b),
         (Err(a), Err(b)) => class(a) == class(b),
         _ => false,
     };
-    if !same { o.fail("C05,C10", format!("emitted decode differs from dynamic message decode: emitted {} dynamic {}", show(&emitted), show(&dynamic))); }
+    // The dynamic message keeps its values as `SV`s and converts them back with `Conv::of_sv`, which
+    // validates UTF-8 (`sc_merge_repeated` re-converts the whole accumulator and so turns an earlier
+    // non-UTF-8 element into ""): once the emitted value holds a non-UTF-8 string (reported above)
+    // the dynamic message is not a reference any more.
+    if !same && badstr.is_empty() { o.fail("C05,C10", format!("emitted decode differs from dynamic message decode: emitted {} dynamic {}", show(&emitted), show(&dynamic))); }
     match emitted {
-        Ok((m, rem)) => {
-            let mut badstr = vec![];
-            check_utf8(s, &m, &mut badstr);
-            if !badstr.is_empty() { o.fail("C10", format!("decoded message holds a string that is not UTF-8: {}", badstr[0])); }
-            if with_rem { format!("ok {} rem={}", m_sexp(&m), rem) } else { format!("ok {}", m_sexp(&m)) }
-        }
+        Ok((m, rem)) => if with_rem { format!("ok {} rem={}", m_sexp(&m), rem) } else { format!("ok {}", m_sexp(&m)) },
         Err(e) => class(&e),
     }
 }
@@ -149,6 +151,9 @@ fn v_cat<T: Message + Default + Clone + Glue>(s: &Arc<Schema>, ma: &DynMsg, mb: 
     let stepped = step.merge(Bytes::from(eb)).map(|_| to_dyn(&step, s));
     match (&whole, &stepped) {
         (Ok(x), Ok(y)) if m_same(x, y) => {}
+        // `a` keeps a negative zero that its encoding drops (known finding about map values, flag off)
+        (Ok(x), Ok(y)) if !FLAG_ON && m_same(&norm_negzero(x), &norm_negzero(y)) =>
+            o.fail("C18", format!("decode(a ++ b) differs from decode a then merge b only in map values equal to their default under IEEE == (negative zero dropped): {} vs {}", m_sexp(x), m_sexp(y))),
         _ => o.fail("C18", format!("decode(a ++ b) {:?} != decode a then merge b {:?}", whole.as_ref().map(m_sexp).map_err(|e| e.to_string()), stepped.as_ref().map(m_sexp).map_err(|e| e.to_string()))),
     }
     let dynamic = DynMsg::decode_dyn(s, T::IDX, false, Bytes::from(cat)).map(|m| (m, 0));
